@@ -16,6 +16,7 @@ pub mod c11;
 pub mod c12;
 pub mod c13;
 pub mod c14;
+pub mod c15;
 pub mod c16;
 pub mod c17;
 pub mod c18;
@@ -73,6 +74,7 @@ pub async fn dispatch(prop: &str, ctx: &Ctx, rep: &mut Report) -> bool {
         "C12" => c12::run(ctx, rep).await,
         "C13" => c13::run(ctx, rep).await,
         "C14" => c14::run(ctx, rep).await,
+        "C15" => c15::run(ctx, rep).await,
         "C16" => c16::run(ctx, rep).await,
         "C17" => c17::run(ctx, rep).await,
         "C18" => c18::run(ctx, rep).await,
